@@ -606,6 +606,14 @@ def writer_rule(ck, prog, cfg, rid):
     ck.check(path is None and bool(pushes) and bool(sers), rid, "write_delta:ok-implies-stored" + _tag(cfg),
              "SegmentWriter::write_delta can return Ok without pushing a record: the flush reports the delta as written, the manifest counts "
              "it, and recovery never sees it", f.where(f.term(path[-1])["ln"] if path else None), detail="records.push on every Ok path")
+    # ... and what was stored stays stored: write_delta only appends to the record buffer
+    undo = [(callee(t).rsplit("::", 1)[-1].split("<")[0], t["ln"]) for b, t in f.calls()
+            if t.get("args") and is_callee(t, r"Vec::<.*>::(pop|truncate|clear|remove|swap_remove|retain|retain_mut|drain|dedup\w*|split_off|insert)(::<.*>)?$")
+            and _self_field_arg(f, t["args"][0]) == "records"]
+    ck.check(not undo, rid, "write_delta:append-only" + _tag(cfg),
+             "SegmentWriter::write_delta removes or rewrites records it has already accepted (%s): a delta reported as written is folded away, so "
+             "the segment decodes to fewer updates than were encoded (and the merge of what is left differs: expiry is merged by max)" % undo[:2],
+             f.where(undo[0][1]) if undo else f.where(), detail="records is only pushed to")
     # finish: the loop over self.records writes each record (no adaptor between the field and the loop)
     fin = [g for g in prog.lib_fns() if g.id == "streaming::segment::SegmentWriter::finish"]
     if len(fin) == 1:
